@@ -158,6 +158,9 @@ class CMThread(Thread):
 
     def stop(self):
         self.stop_event.set()
+        # a paused thread (run_event cleared by the flow control) must be released, otherwise it would never see the stop
+        # request and the join would wait forever
+        self.run_event.set()
         self.join()
 
     def __enter__(self):
